@@ -37,6 +37,16 @@ Theorem C10_min_mean_right n mu mn ws xs k p q : (3 <= n)%nat -> dist_ok ws xs -
   (k < n - 1)%nat -> p <= INR (k + 1) / INR n -> mass (fun x => Rltb x q) ws xs <= p ->
   q <= nth k (snd (free_min_mean RN n mn mu)) 0.
 Proof. intros H. exact (min_mean_right_sound n H mu mn ws xs k p q). Qed.
+(* the generated min_max_mean constructor, any number of steps: every finite distribution on [mn, mx] with that mean *)
+Theorem C10_min_max_mean_left n mn mx mu ws xs k p q : (1 <= n)%nat -> dist_ok ws xs -> mean_of ws xs = mu -> Forall (fun x => mn <= x <= mx) xs ->
+  (k < n)%nat -> INR k / INR n <= p -> 0 < p -> p <= mass (fun x => Rleb x q) ws xs ->
+  nth k (fst (free_min_max_mean RN n mn mx mu)) 0 <= q.
+Proof. intros H. exact (mmm_left_sound n H mn mx mu ws xs k p q). Qed.
+Theorem C10_min_max_mean_right n mn mx mu ws xs k p q : (1 <= n)%nat -> dist_ok ws xs -> mean_of ws xs = mu -> Forall (fun x => mn <= x <= mx) xs -> mn < mx ->
+  (k < n)%nat -> p <= INR (k + 1) / INR n -> p < 1 -> mass (fun x => Rltb x q) ws xs <= p ->
+  q <= nth k (snd (free_min_max_mean RN n mn mx mu)) 0.
+Proof. intros H. exact (mmm_right_sound n H mn mx mu ws xs k p q). Qed.
+Print Assumptions C10_min_max_mean_right.
 (* which grid point each entry uses (the entry of step k of the left edge is the bound at the LEFT end k/n of the step) *)
 Theorem C10_mean_std_left_grid n mu sd k : (3 <= n)%nat -> (k < n - 1)%nat ->
   nth k (fst (free_mean_std RN n mu sd)) 0 = mu - sd * sqrt (1 / (INR (Nat.max k 1) / INR n) - 1).
